@@ -31,6 +31,13 @@ NOTES = {
     'C15-A5b-deferred-scan-in-registration-order-for-deep-mro': 'MISSED by C15 as built then (the fixed lattice is at most 4 classes deep; the change needs an MRO longer than the number of pending by-name registrations, 7 in a fresh process); caught after adding histories on random class hierarchies up to 18 deep (with per-history teardown of unresolved registrations)',
     'C13-A5-fallback-early-return-shared-object': 'first caught by C14 (visited-set trace after a contained fault); C13 itself MISSED it as built then (no object with a failing printer in its graphs); caught by C13 after adding a shared node kind whose printer raises',
     'C05-A5-fast-predicate-walks-into-always-break': 'claimed for C05; caught by C04 (an always_break rendered inside a flat group, layout not denoted). C05\'s own check stays silent BY DESIGN: it judges the line on which a flat group starts, and a flat group spanning a forced break is judged by the forcing clause of C04 (DESIGN 3/C05: "only the first line is judged")',
+    'C02-A6-bulk-split-duplicates-word-at-exact-multiple': 'MISSED by C02 as built then (strings up to ~400 characters); caught after adding very long strings (255 ... 65536 characters) with every length residue modulo the line capacity',
+    'C11-B6-container-doc-memo-by-id-ignores-depth': 'MISSED by C11 as built then (every container object occurred once); caught after letting random values reuse a finished container object at other nesting levels (aliasing)',
+    'C11-B6b-per-call-container-memo-ignores-depth': 'MISSED by C11 as built then (no aliased containers); caught after the aliasing widening (same as C11-B6)',
+    'C14-A6-scalar-fast-path-skips-containment': 'MISSED by C14 as built then (failing printers belonged to user classes only); caught after adding user printers registered for the built-in scalar and container types themselves (run in forked children)',
+    'C07-A6-kwarg-comment-does-not-force-break': 'MISSED by C07 as built then (no field / keyword value that the printers show with an automatic comment); caught after adding functions and classes as field values',
+    'C09-B6-notice-template-joined-with-user-comment': 'caught by C10 as built then only after format characters were added to its comment texts; MISSED by C09 and C10 as built then (comment texts without { } %; C09 never used max_seq_len); caught after adding such texts to both and an inertness-under-max_seq_len pass to C09',
+    'C06-A6-force-break-estimate-off-by-one-element': 'MISSED by C06 as built then (the no-forced-break obligation covered sequences up to 20 elements); caught after extending it to the documented limit (shortest one-line form <= 150 columns, i.e. up to 50 elements) with sequences of exactly 49/50 elements',
 }
 for name, note in NOTES.items():
     p = os.path.join(HOME, 'seeded', name, 'meta.json')
@@ -49,6 +56,9 @@ for p in glob.glob(os.path.join(HOME, 'seeded', '*', 'meta.json')):
     if rnd in ('2', '3'):
         m['origin'] = ('round %s: independent sub-agent in its own scratch worktree, given the property text plus a PROSE description of the kind of generated workload '
                        'it had to slip past (no file from /verif) - a deliberately stronger adversary than "property text only"' % rnd)
+    elif rnd == '6':
+        m['origin'] = ('round 6: independent sub-agent in its own scratch worktree, given four property texts (pick two), the rarity requirement of round 5, and one-line '
+                       'summaries of the ideas earlier seeders had already delivered for those properties ("do not repeat") - nothing about the checks')
     elif rnd == '5':
         m['origin'] = ('round 5: independent sub-agent in its own scratch worktree, given four property texts only (pick two), asked to prove rarity itself with a random '
                        'differential test of its own (clean vs changed copy, < 1 in 1000 random inputs differing)')
